@@ -34,6 +34,15 @@ CHECKS = {
          "Bounded: 5 handles, <=2-3 premises, <=4-5 justifications, graph cut at 7-8 ops (walks to 10); premises live when "
          "recorded; TLC and the harness projection are trusted.",
          "TLA+ lock-step ideal/as-built spec, TLC state-graph dump replayed on the real object (transition cover + all short histories + walks)"),
+ "C15": ("model_checking",
+         "Sequential: TLC checks sortedness, stable tie order, index agreement, duplicate rejection and version growth on the "
+         "complete state graph (4 names x 3 saliences) and that graph is replayed transition by transition on the real "
+         "KnowledgeBase. Concurrent: 3-thread x 4-op histories recorded from the real object are each checked by TLC for a "
+         "linearization against the sequential spec (real-time order respected, every result and the final list explained).",
+         "DESIGN.md §4 C15",
+         "Sequential part exhaustive over the stated alphabet by state graph (not by history) plus all histories to depth 3-4 and "
+         "walks to 8; concurrent part validates only schedules that occurred in the stress runs; TLC and the harness projection are trusted.",
+         "TLA+ sequential spec + TLC state-graph replay on the real object; TLC linearizability search over recorded concurrent histories (trace validation)"),
 }
 
 NOT_YET = "check not built yet in this round (see DESIGN.md §9 build order); no claim is made"
